@@ -28,7 +28,9 @@ STRATS = {
     "accumulate": [None, "accumulate", "itertools", "func", "pure_python", "z"],
     "envelope": [None, "rms", "abs", "squared"],
 }
-INPUTS = ["list", "tuple", "gen", "iter", "Stream", "thub", "endless"]
+INPUTS = ["list", "tuple", "deque", "gen", "iter", "Stream", "thub", "endless"]
+REUSE = ["fresh", "fresh", "fresh", "second", "interleaved"]
+DECOY = [F(5), F(-7, 2), F(9), F(1, 4), F(-6), F(2), F(8), F(-1, 2), F(3)]
 
 
 # ----------------------------------------------------------------------------------------------
@@ -131,6 +133,7 @@ def _finish(rng, c, vals, allow_float=True, allow_none=(), allow_inf=None):
     c["input"] = _pick_input(rng, c["xs"])
     if c["input"] == "endless":
         c["take"] = len(c["xs"]) + rng.randint(0, len(c["xs"]) + 2)
+    c["reuse"] = rng.choice(REUSE)
     # how the samples are spelled: Fraction (default), int, binary float (only when every number is dyadic: exact)
     nums = [_dec(j) for j in c["xs"]] + [v for v in vals.values()]
     r = rng.random()
@@ -262,17 +265,49 @@ def gen_envelope_call(rng, tier):
         c["shape"]["cutoff"], c["spell"]["cutoff"] = sh, "float"
     c["sigkw"] = sh != "pos" and rng.random() < 0.15
     c["input"] = _pick_input(rng, xs)
+    c["reuse"] = rng.choice(REUSE)
     if c["input"] == "endless":
         c["take"] = len(xs) + rng.randint(0, 5)
     return c
 
 
+def gen_huge_call(rng, tier):
+    """samples far beyond 2**53 (exact ints / Fractions): nothing may pass through a float on the way"""
+    B = rng.choice([10 ** 20, 2 ** 70, 10 ** 30 + 7, -(10 ** 25)])
+    n = rng.choice([1, 2, 3, 5, 8])
+    small = lambda: F(rng.randint(-12, 12), rng.choice([1, 1, 2, 3]))
+    tool = rng.choice(["clip", "zcross", "unwrap", "accumulate"])
+    if tool == "clip":
+        xs = [B + small() for _ in range(n)]
+        c = {"entry": "clip_call", "xs": [_enc(x) for x in xs]}
+        return _finish(rng, c, {"low": B - 3, "high": B + F(5, 2)}, allow_float=False, allow_none=("low", "high"))
+    if tool == "zcross":
+        xs = [rng.choice([1, -1]) * (abs(B) + small()) for _ in range(n)]
+        c = {"entry": "zcross_call", "xs": [_enc(x) for x in xs]}
+        return _finish(rng, c, {"hysteresis": F(abs(B)) + rng.choice([0, 1, -1]), "first_sign": F(rng.choice([0, 1, -B]))},
+                       allow_float=False)
+    if tool == "unwrap":
+        step = rng.choice([F(1), F(2), F(3), F(7), F(3, 2)])
+        xs, cur = [], F(B)
+        for _ in range(n):
+            xs.append(cur)
+            cur += rng.choice([small(), rng.randint(-3, 3) * step + rng.choice([F(0), step / 2, F(1, 8)]), F(13, 4), F(-7, 2)])
+        c = {"entry": "unwrap_call", "xs": [_enc(x) for x in xs]}
+        return _finish(rng, c, {"max_delta": rng.choice([step / 2, F(1), F(3)]), "step": step}, allow_float=False)
+    xs = [B + small() for _ in range(n)]
+    c = {"entry": "accumulate_call", "xs": [_enc(x) for x in xs]}
+    s = rng.choice([None, "accumulate", "itertools", "func", "pure_python"])
+    if s:
+        c["strategy"], c["via"] = s, rng.choice(["attr", "item"])
+    return _finish(rng, c, {}, allow_float=False)
+
+
 CALL_GENS = [(gen_unwrap_call, 30), (gen_zcross_call, 16), (gen_clip_call, 16), (gen_maverage_call, 12),
-             (gen_accumulate_call, 8), (gen_amdf_call, 8), (gen_envelope_call, 6)]
+             (gen_accumulate_call, 8), (gen_amdf_call, 8), (gen_envelope_call, 6), (gen_huge_call, 6)]
 
 
 def generate(rng, tier):
-    total = 2400 if tier == "quick" else 20000
+    total = 4000 if tier == "quick" else 24000
     wsum = sum(w for _, w in CALL_GENS)
     cases = []
     for g, w in CALL_GENS:
@@ -340,6 +375,24 @@ def exhaustive():
                     if cut is not None:
                         c["cutoff"], c["shape"]["cutoff"], c["spell"]["cutoff"] = _enc(cut), sh[0], "float"
                     cases.append(c)
+    # the same callable used before / still in use (a second stream read alternately)
+    for reuse in ("second", "interleaved"):
+        for s in STRATS["maverage"]:
+            add("maverage_call", xs, {"zero": F(3, 2)}, ("kw",), size=2, size_how="pos", reuse=reuse, **({"strategy": s, "via": "attr"} if s else {}))
+            add("maverage_call", xs, {"zero": F(3, 2)}, ("omit",), size=4, size_how="pos", reuse=reuse, **({"strategy": s, "via": "attr"} if s else {}))
+        for s in STRATS["accumulate"]:
+            add("accumulate_call", xs, {}, (), reuse=reuse, **({"strategy": s, "via": "attr"} if s else {}))
+        add("amdf_call", xs, {"zero": F(1, 2)}, ("omit",), lag=1, size=2, outer="pos", reuse=reuse)
+        add("amdf_call", xs, {"zero": F(1, 2)}, ("pos",), lag=2, size=4, outer="pos", reuse=reuse)
+        add("unwrap_call", walk, {"max_delta": F(3, 2), "step": F(2)}, ("omit", "kw"), reuse=reuse)
+        add("zcross_call", walk, {"hysteresis": F(1), "first_sign": F(-1)}, ("pos", "omit"), reuse=reuse)
+        add("clip_call", walk, {"low": F(1), "high": F(3)}, ("omit", "kw"), reuse=reuse)
+        for s in STRATS["envelope"]:
+            c = {"entry": "envelope_call", "xs": E([1.0, -2.0, 0.5, 0.0, 3.0]), "shape": {}, "spell": {}, "sigkw": False, "input": "list",
+                 "reuse": reuse}
+            if s:
+                c["strategy"], c["via"] = s, "attr"
+            cases.append(c)
     return cases
 
 
@@ -368,6 +421,9 @@ def make_input(c, al):
         return list(xs)
     if k == "tuple":
         return tuple(xs)
+    if k == "deque":
+        import collections
+        return collections.deque(xs)
     if k == "gen":
         return (x for x in xs)
     if k == "iter":
@@ -381,11 +437,25 @@ def make_input(c, al):
     raise ValueError(k)
 
 
-def _read(c, out):
+def _read(c, out, other=None):
+    if other is not None:            # a second stream made by the SAME callable, read alternately
+        res, it = [], iter(out)
+        n = c["take"] if c.get("input") == "endless" else None
+        while n is None or len(res) < n:
+            try:
+                res.append(next(it))
+            except StopIteration:
+                break
+            next(other, None)
+        return res
     if c.get("input") == "endless":
         n = c["take"]
         return list(out.take(n)) if hasattr(out, "take") and n % 2 else list(itertools.islice(out, n))
     return list(out)
+
+
+def _decoy(c):
+    return [float(x) for x in DECOY] if (c.get("float_twin") or c["entry"] == "envelope_call" or c.get("xs_how") == "float") else list(DECOY)
 
 
 def _args(c, names, first):
@@ -410,17 +480,32 @@ def _strategy_obj(c, d):
     return getattr(d, s) if c.get("via", "attr") == "attr" else d[s]
 
 
+_QUIET = []
+
+
 def _call(c):
     import audiolazy as al
+    if not _QUIET:       # a thub handed to a call that fails before reading it is never used: not this property's business
+        import warnings
+        warnings.filterwarnings("ignore", category=al.MemoryLeakWarning)
+        _QUIET.append(1)
     e = c["entry"]
     inp = make_input(c, al)
 
     def invoke(f, first_name, names, pre_pos=()):
         pos, kw = _args(c, names, first_name)
+        reuse = c.get("reuse", "fresh")
+        other = None
+        if reuse != "fresh" and not any(v is None for v in list(kw.values()) + pos):
+            # the callable has been used before (same arguments, another input): fully read, or still being read
+            other = iter(f(_decoy(c), *(list(pre_pos) + pos if pos else []), **kw))
+            if reuse == "second":
+                list(other)
+                other = None
         if c.get("sigkw"):
             kw[first_name] = inp
-            return f(*pos, **kw)
-        return f(inp, *(list(pre_pos) + pos if pos else []), **kw)
+            return f(*pos, **kw), other
+        return f(inp, *(list(pre_pos) + pos if pos else []), **kw), other
 
     if e in ("unwrap_call", "zcross_call", "clip_call"):
         tool = e[:-5]
@@ -450,12 +535,48 @@ def _call(c):
     raise ValueError(e)
 
 
+_DOC = {}
+
+
+def documented_default(fn, param):
+    """a default of the documented table the Lean model uses (driver entry `defaults`), as a Fraction"""
+    if not _DOC:
+        r = common.Driver().batch([{"id": "C20", "entry": "defaults"}])[0]["ok"]
+        for s in r["signatures"]:
+            for p in s["params"]:
+                if "default" in p:
+                    _DOC[(s["fn"], p["name"])] = p["default"]
+    return _dec(_DOC[(fn, param)])
+
+
+def _envelope_definition(c):
+    """the defining expression of the strategy - the impl's own low-pass of |x| / x^2 (square root for rms) - at the cutoff
+    given, or at the DOCUMENTED default cutoff when the call omits it"""
+    import audiolazy as al
+    s = c.get("strategy") or "rms"
+    cut = spell(c["cutoff"], "float") if "cutoff" in c else float(documented_default("envelope." + s, "cutoff"))
+    xs = _samples(c)
+    if c.get("input") == "endless":
+        xs = [xs[i % len(xs)] for i in range(c["take"])]
+    f = al.lowpass(cut)
+    if s == "abs":
+        return list(f(abs(x) for x in xs))
+    sq = list(f(x ** 2 for x in xs))
+    return sq if s == "squared" else [v ** .5 for v in sq]
+
+
 def impl(c):
     try:
-        out = _read(c, _call(c))
-        return {"out": [_enc(x) for x in out]}
+        out = _read(c, *_call(c))
+        obs = {"out": [_enc(x) for x in out]}
     except Exception as ex:      # noqa
-        return {"out": {"err": err_kind(ex)}}
+        obs = {"out": {"err": err_kind(ex)}}
+    if c["entry"] == "envelope_call":
+        try:
+            obs["def"] = [_enc(x) for x in _envelope_definition(c)]
+        except Exception as ex:      # noqa
+            obs["def"] = {"err": err_kind(ex)}
+    return obs
 
 
 def _bound(c):
@@ -519,6 +640,9 @@ def compare(c, io, drv, _cmp, tol):
             _cmp(out, "spec", what + ": no jump above max_delta (default pi), yet changed", io["out"], xs, 0)
         if "multiple" in drv and not (drv["multiple"] and drv["adjacent"]):
             out.append(("spec", "unwrap model output violates multiple-of-step / adjacent-jump bound"))
+    if e == "envelope_call":
+        _cmp(out, "spec", what + " vs the documented low-pass (cutoff given or the documented default pi/512) of |x| / x^2",
+             io["out"], io["def"], tol)
     if e == "clip_call" and not drv["bounded"]:
         out.append(("spec", "clip output outside the limits"))
     return out
@@ -553,6 +677,9 @@ def tally(eng, c, io):
     e = c["entry"]
     eng.count("call_shape", "%s(%s)" % (e[:-5], shape_key(c)))
     eng.count("call_input_kind", "%s:%s" % (e[:-5], c.get("input", "list")))
+    eng.count("call_reuse", "%s:%s" % (e[:-5], c.get("reuse", "fresh")))
+    if c["xs"] and max(abs(_dec(j)) for j in c["xs"]) > 2 ** 53:
+        eng.count("call_magnitude", "%s:samples beyond 2**53" % e[:-5])
     for nme, how in c.get("spell", {}).items():
         eng.count("call_spelling", "%s.%s:%s" % (e[:-5], nme, how))
     for nme in ("max_delta", "step", "hysteresis", "first_sign", "low", "high"):
@@ -615,6 +742,8 @@ def shrink(c):
                     yield dict(c, xs=xs[:i] + [_enc(w)] + xs[i + 1:])
     if c.get("input", "list") != "list":
         yield dict(c, input="list")
+    if c.get("reuse", "fresh") != "fresh":
+        yield dict(c, reuse="fresh")
     if c.get("sigkw"):
         yield dict(c, sigkw=False)
     if c.get("via") == "item":
